@@ -4,7 +4,6 @@
 From V.model Require Import Base RelLex RelParse RelAcc RelGrammar RelGrammarAll.
 From V.proofs Require Import BaseP RelLexP RelGrammarLexP.
 From Coq Require Import ZifyBool.
-Set Default Timeout 60.
 
 Lemma rttext_of_eq ts : rttext_of ts = rttext ts.
 Proof. reflexivity. Qed.
